@@ -173,17 +173,30 @@ unblock_sig(int sig)
 	return;
 }
 
+/* whether the job has been told to go (SIGXCPU) already */
+static volatile sig_atomic_t timeo_told;
+
 static void
 timeo_cb(int UNUSED(signum))
 {
+	if (!timeo_told) {
+		/* the job is the leader of a process group of its own, see
+		 * run_task(), get everything the command line has started,
+		 * and come back for those that catch or ignore the signal */
+		timeo_told = 1;
+		block_sigs();
+		if (LIKELY(chld > 0)) {
+			kill(-chld, SIGXCPU);
+		}
+		alarm(1U);
+		return;
+	}
 	with (struct sigaction sa = {.sa_handler = SIG_DFL}) {
 		sigaction(SIGALRM, &sa, NULL);
 	}
 	block_sigs();
-	/* the job is the leader of a process group of its own, see
-	 * run_task(), get everything the command line has started */
 	if (LIKELY(chld > 0)) {
-		kill(-chld, SIGXCPU);
+		kill(-chld, SIGKILL);
 	}
 	return;
 }
@@ -205,6 +218,7 @@ set_timeout(unsigned int tdiff)
 
 	/* unblock just this one signal */
 	unblock_sig(SIGALRM);
+	timeo_told = 0;
 	return alarm(tdiff);
 }
 
